@@ -77,7 +77,11 @@ claim("C11",
       "Rocq: finite reflection over regenerated tables + induction for plain text + reference-converter differential check",
       "DESIGN.md section 6 C11")
 claim("C12",
-      "Theorems (Coq): for every palette of valid names and every non-default colour in it, the index the encoder writes "
+      "Theorems (Coq): C12_document - for EVERY document (single-, multi-section, figure) every colour index the encoder writes "
+      "(text, background, the four cell borders; every row and paragraph of every page) is color_index of a non-empty colour "
+      "name that collect_colors d contains, i.e. the palette in force is complete for everything the pipeline looks up "
+      "(Proofs/ColorWalk.v walks the whole model pipeline); with C12_resolves each such index points at the requested colour's "
+      "entry of the document's own dense table; for every palette of valid names and every non-default colour in it, the index the encoder writes "
       "points at the master-table entry of that very colour inside the document's dense table (unbounded over palettes); "
       "index 0 iff default; the reader reads the emitted \\colortbl back as that dense table; a table exists iff a "
       "non-default colour is used; finite facts on the regenerated colour and font tables (unique names, dense indices, "
